@@ -4,3 +4,4 @@ pub mod sv;
 pub mod rtverbs;
 pub mod dynmsg;
 pub mod msgverbs;
+pub mod adv;
